@@ -76,6 +76,12 @@ def tx_desc(rng, version, in_kinds, ring, out_tagged, rct_type, n_proofs=1, extr
     prng = prefix_rng or rng         # prefix_rng: two calls with equal prefix_rng seeds give transactions with the SAME prefix
     ins = [txin(prng, k, r) for k, r in zip(in_kinds, rr)]
     outs = [txout(prng, t) for t in out_tagged]
+    if prng.random() < 0.08:
+        # repeated elements are legal on the wire: the same input twice (equal key image and offsets), the same output twice
+        if n_in >= 2 and in_kinds[0] == in_kinds[-1] and rr[0] == rr[-1]:
+            ins[-1] = ins[0]
+        if n_out >= 2 and out_tagged[0] == out_tagged[-1]:
+            outs[-1] = outs[0]
     if extra_len is None:
         extra_len = prng.choice([0, 1, 33, 44, 127, 128, 200, 255, 256, 16383, 16384] if prng.random() < 0.15 else [0, 1, 33, 44, 127, 128, 200])
     prefix = [str(version), str(interesting_u64(prng))] + lst(ins) + lst(outs) + [hexb(prng, extra_len)]
@@ -220,7 +226,22 @@ def header_desc(rng):
 def block_desc(rng, n_hashes, miner=None):
     if miner is None:
         miner = tx_desc(rng, 2, ["gen"], 1, [False], 0)
-    return header_desc(rng) + miner + lst([[key(rng)] for _ in range(n_hashes)])
+    hs = [[key(rng)] for _ in range(n_hashes)]
+    if 2 <= n_hashes <= 2000 and rng.random() < 0.3:
+        # listed hashes are data: the same hash twice (adjacent, apart, everywhere), the all-zero and the all-ones hash
+        style = rng.randrange(5)
+        i, j = rng.sample(range(n_hashes), 2)
+        if style == 0:
+            hs[j] = hs[i]
+        elif style == 1:
+            hs[min(i + 1, n_hashes - 1)] = hs[i]
+        elif style == 2:
+            hs = [hs[0]] * n_hashes
+        elif style == 3:
+            hs[i] = ["00" * 32]
+        else:
+            hs[i], hs[j] = ["00" * 32], ["ff" * 32]
+    return header_desc(rng) + miner + lst(hs)
 
 
 def corpus_hex():
